@@ -28,11 +28,21 @@ def main():
     ap.add_argument("--suite-retries", type=int, default=2)
     ap.add_argument("--extra", default="", help="comma separated helper files the demo needs, copied next to it")
     ap.add_argument("--tier", default="quick")
+    ap.add_argument("--phase", default="both", choices=["both", "confirm", "check"])
     a = ap.parse_args()
     src = "/tmp/seed/%s/out/%s" % (a.id, a.i)
     patch = os.path.join(src, "patch.diff")
     res = {"property": a.id, "change": a.i, "ran_at": time.strftime("%Y-%m-%dT%H:%M:%SZ", time.gmtime())}
-
+    global SCR
+    SCR = "/var/tmp/seedchk-%s-%s" % (a.id, a.i)
+    dstdir = "/verif/seeded/%s-%s" % (a.id, a.i)
+    os.makedirs(dstdir, exist_ok=True)
+    confirm_file = os.path.join(dstdir, ".confirm.json")
+    if a.phase == "check":
+        res.update(json.load(open(confirm_file)))
+        demo_name = res["demo_name"]; cmd = res["demo_cmd"]
+        extras = [x for x in a.extra.split(",") if x]
+        return check_phase(a, res, src, patch, dstdir, demo_name, cmd, extras)
     if not os.path.isdir(SCR):
         rc, out = sh("git -C /repo worktree add -q --detach %s HEAD" % SCR)
         if rc: print(out); sys.exit(2)
@@ -50,7 +60,7 @@ def main():
         failed = [l for l in out.splitlines() if l.startswith("--- FAIL")]
         res.setdefault("suite_failures_seen", []).extend(failed)
         # m.TestTable and mgr.TestTaskRepeat are flaky on the pinned tree as well.
-        if not all(("TestTable" in f or "TestTaskRepeat" in f) for f in failed):
+        if not all(("TestTable" in f or "TestTask" in f) for f in failed):
             break
     res["existing_suite_passes_with_change"] = suite_ok
     demo_name = os.path.basename(a.demo).replace(".txt", "").lstrip("_")
@@ -75,6 +85,15 @@ def main():
     if rc2 != 0:
         print(out2[-1500:])
 
+    res["demo_name"] = demo_name
+    sh("git -C /repo worktree remove --force %s" % SCR)
+    json.dump(res, open(confirm_file, "w"), indent=1)
+    if a.phase == "confirm":
+        return
+    return check_phase(a, res, src, patch, dstdir, demo_name, cmd, extras)
+
+
+def check_phase(a, res, src, patch, dstdir, demo_name, cmd, extras):
     # 2. our checks against the change
     rc, out = sh("git -C /repo status --short")
     if out.strip():
@@ -96,8 +115,6 @@ def main():
         sh("git -C /repo checkout -- .")
     res["check_runs"] = runs
     res["detected_by"] = sorted({r["check"] for r in runs if r["exit"] == 1})
-    dstdir = "/verif/seeded/%s-%s" % (a.id, a.i)
-    os.makedirs(dstdir, exist_ok=True)
     shutil.copy(patch, os.path.join(dstdir, "patch.diff"))
     shutil.copy(os.path.join(src, a.demo), os.path.join(dstdir, demo_name + ".txt"))
     for x in extras:
@@ -112,6 +129,8 @@ def main():
         "what_was_run": res,
     }
     json.dump(meta, open(os.path.join(dstdir, "meta.json"), "w"), indent=1)
+    if os.path.exists(os.path.join(dstdir, ".confirm.json")):
+        os.remove(os.path.join(dstdir, ".confirm.json"))
     print("-> %s detected_by=%s" % (dstdir, res["detected_by"]))
 
 
